@@ -91,8 +91,14 @@ def not_fitted_checks(ctx):
   P = X[[[0, 1], [2, 3]]]
   T3 = X[[[0, 1, 2]]]
   Q4 = X[[[0, 1, 2, 3]]]
-  for name in fits.NAMES:
-    est = getattr(metric_learn, name)()
+  import copy
+  from sklearn.base import clone
+  histories = [('new', lambda e: e), ('pickle round trip', lambda e: pickle.loads(pickle.dumps(e))),
+               ('deepcopy', copy.deepcopy), ('clone', clone)]
+  for name, (hname, hist), withpre in [(n, h, wp) for n in fits.NAMES for h in histories for wp in (False, True)]:
+    if withpre and hname in ('new', 'clone'):
+      continue
+    est = hist(getattr(metric_learn, name)(**(dict(preprocessor=np.arange(20.0).reshape(5, 4)) if withpre else {})))
     calls = [('transform', (X,)), ('pair_distance', (P,)), ('pair_score', (P,)), ('get_metric', ()),
              ('get_mahalanobis_matrix', ()), ('score_pairs', (P,))]
     ts = fits.TUPLE_SIZE.get(name)
@@ -108,12 +114,13 @@ def not_fitted_checks(ctx):
         with warnings.catch_warnings():
           warnings.simplefilter('ignore')
           getattr(est, meth)(*args)
-        ctx.fail_input('not_fitted', 'unfitted %s.%s returns' % (name, meth), dict(estimator=name, method=meth))
+        ctx.fail_input('not_fitted', 'unfitted %s.%s returns' % (name, meth) + ('' if hname == 'new' else ' (after a %s)' % hname),
+                       dict(estimator=name, method=meth, history=hname, preprocessor=withpre))
       except NotFittedError:
         pass
       except Exception as ex:
-        ctx.fail_input('not_fitted', 'unfitted %s.%s raises %s' % (name, meth, type(ex).__name__),
-                       dict(estimator=name, method=meth), observed=str(ex)[:200])
+        ctx.fail_input('not_fitted', 'unfitted %s.%s raises %s' % (name, meth, type(ex).__name__) + ('' if hname == 'new' else ' (after a %s)' % hname),
+                       dict(estimator=name, method=meth, history=hname, preprocessor=withpre), observed=str(ex)[:200])
 
 
 def pickle_checks(ctx, variants):
@@ -144,6 +151,51 @@ def pickle_checks(ctx, variants):
     if not same:
       ctx.fail_input('pickle_roundtrip', 'pickle changes the outputs of a fitted %s' % name,
                      dict(estimator=name, params={k: repr(v)[:60] for k, v in kw.items()}))
+
+
+def pickle_preprocessor_checks(ctx):
+  """a fitted estimator whose preprocessor parameter was changed afterwards (not refitted): the unpickled copy answers
+  exactly like the original, on indices as on formed points, and has the same set of attributes"""
+  rng = ctx.rng
+  for name, kw, data in fits.zoo_specs(np.random.default_rng(ctx.seed + 41), variants=False):
+    X = data['X']
+    n = len(X)
+    kwp = dict(kw)
+    kwp['preprocessor'] = X
+    args = fits.fit_args(name, data)
+    kind = fits.KIND[name]
+    try:
+      with warnings.catch_warnings():
+        warnings.simplefilter('ignore')
+        if kind in ('unsup', 'class', 'reg', 'chunks'):
+          est = fits.make_estimator(name, kwp).fit(np.arange(n), *args[1:])
+        else:
+          key = {'pairs': 'pairs_idx', 'triplets': 'trip_idx', 'quads': 'quad_idx'}[kind]
+          est = fits.make_estimator(name, kwp).fit(data[key], *args[1:])
+    except Exception:
+      ctx.count('pickle_fit_failed', 1)
+      continue
+    X2 = X[::-1].copy() + 1.0
+    for hname in ('fitted', 'fitted, then set_params(preprocessor=other array)'):
+      if hname != 'fitted':
+        est.set_params(preprocessor=X2)
+      e2 = pickle.loads(pickle.dumps(est))
+      idx = rng.integers(0, n, size=6)
+      pidx = rng.integers(0, n, size=(5, 2))
+      ctx.count('pickle_roundtrip', 1)
+      with warnings.catch_warnings():
+        warnings.simplefilter('ignore')
+        same = (np.array_equal(est.transform(idx), e2.transform(idx), equal_nan=True) and
+                np.array_equal(est.pair_distance(pidx), e2.pair_distance(pidx), equal_nan=True) and
+                np.array_equal(est.transform(X[idx]), e2.transform(X[idx]), equal_nan=True) and
+                set(vars(est)) == set(vars(e2)))
+        ts = fits.TUPLE_SIZE.get(name)
+        if same and ts:
+          tidx = rng.integers(0, n, size=(5, ts))
+          same = np.array_equal(est.decision_function(tidx), e2.decision_function(tidx), equal_nan=True)
+      if not same:
+        ctx.fail_input('pickle_roundtrip', 'pickle changes the outputs (on indices through the preprocessor) or the attributes of a %s %s' % (hname, name),
+                       dict(estimator=name, history=hname))
 
 
 def same_metric(name, a, b):
@@ -210,6 +262,7 @@ def run(ctx):
   clone_checks(ctx)
   not_fitted_checks(ctx)
   pickle_checks(ctx, ctx.tier == 'thorough')
+  pickle_preprocessor_checks(ctx)
 
 
 def replay(payload):
